@@ -38,12 +38,13 @@ type reviewedRange struct {
 }
 
 // The reviewed table. kind:
-//   sorting-consumer  the slice built is handed to a function that sorts it (witness: that function sorts its argument)
-//   name-keyed        the slice's only consumer stores each element in a map under its name (witness: the consumer's loop is a map insert)
-//   sorted-by-callee  every append is followed by a call that sorts and returns the slice (witness: callee sorts before returning)
-//   file-set          a list of per-element files that are written by path; list order is not output (witness: main writes by Directory/FileName)
-//   diagnostic        debug printers, not on the generation path (witness: function is String/Size)
-//   keyed-effects     per-element effects keyed by the element (maps / registries); assumption recorded
+//
+//	sorting-consumer  the slice built is handed to a function that sorts it (witness: that function sorts its argument)
+//	name-keyed        the slice's only consumer stores each element in a map under its name (witness: the consumer's loop is a map insert)
+//	sorted-by-callee  every append is followed by a call that sorts and returns the slice (witness: callee sorts before returning)
+//	file-set          a list of per-element files that are written by path; list order is not output (witness: main writes by Directory/FileName)
+//	diagnostic        debug printers, not on the generation path (witness: function is String/Size)
+//	keyed-effects     per-element effects keyed by the element (maps / registries); assumption recorded
 var reviewedRanges = []reviewedRange{
 	{"Struct.ToInterface", "s.methods", "sorting-consumer", "signatures are handed to NewInterface, which sorts them"},
 	{"Typedef.ToInterface", "t.methods", "sorting-consumer", "signatures are handed to NewInterface, which sorts them"},
@@ -795,7 +796,7 @@ func checkC15Algebra(res *Result, pkgs []*packages.Package) {
 	if fd.Recv != nil && len(fd.Recv.List[0].Names) == 1 {
 		recv = fd.Recv.List[0].Names[0].Name
 	}
-	var acc types.Object          // accumulator map
+	var acc types.Object                 // accumulator map
 	ancestors := map[types.Object]bool{} // vars holding the transitive ancestor set
 	var ops []setOp
 	var unknown []string
